@@ -72,8 +72,8 @@ theorem term_parsers_never_panic (po : POps) : ∀ f : Nat,
         intro _ _
         apply Res.bind_ne_panic (ihT _)
         intro _ _; simp
-      · refine Res.bind_ne_panic (checkQuotes_ne_panic (fun hn he => ?_)) (fun _ _ => ihM _ _ _ _)
-        rw [he] at hn; exact hn rfl
+      · refine Res.bind_ne_panic (checkQuotes_ne_panic (fun hn => ?_)) (fun _ _ => ihM _ _ _ _)
+        exact trim_ne_nil_of_quote (unescLoop_quote_mem _ _ (Nat.le_refl _) 0 0 false hn)
     · intro s a b c
       simp only [makeTerm]
       split
@@ -276,7 +276,8 @@ theorem C18_rule (po : POps) (s : Text) : ∃ f0, ∀ f, f0 ≤ f →
 /-! non-vacuity / witnesses: the inputs on which the pinned tree panicked are errors in the model of
     the repaired code, and ordinary inputs parse -/
 def po0 : POps := ⟨fun _ => none, fun c => ('a'.toNat ≤ c.toNat && c.toNat ≤ 'z'.toNat) || ('A'.toNat ≤ c.toNat && c.toNat ≤ 'Z'.toNat)⟩
-example : parseTerm po0 8 "f(\\)".toList = .ok (.cplx (.cons (.atom "f") (.cons (.atom "\\") .nil))) := by decide +kernel
+example : parseTerm po0 8 "f(\\)".toList = .fail := by decide +kernel      -- (an escaped parenthesis: unbalanced, since repair D22)
+example : parseTerm po0 8 "f(\\, )".toList = .ok (.cplx (.cons (.atom "f") (.cons (.atom ",") .nil))) := by decide +kernel
 example : parseQuery po0 8 [] = .fail := by decide +kernel
 example : parseTerm po0 8 "[a, $X | $T]".toList =
     .ok (.cons (.atom "a") (.cons (.var 0 "$X") (.cons (.var 0 "$T") Term.empty 1 true) 2 false) 3 false) := by decide +kernel
